@@ -12,7 +12,7 @@ A_NOTE = ("Trusted: the fold definitions of 'held on the physical/virtual keyboa
           "the JSON parser and the converter (every layout is loaded through them). Sampled, not enumerated.")
 B_NOTE = ("Trusted: the simulated driver (edge-triggered readiness, discrete-event clock) and RefLoop (sim/src/loopsim.rs), which replays the recorded "
           "trace against its own real Mapper. Real code: do_remapping_loop_one_device and the mapper inside it, reached through hook H1. "
-          "Not covered: RealDriver (mio/errno mapping), uinput ioctls, the multi-device thread spawners.")
+          "In hybrid campaigns also the shipped RealDriver (hook H3) with the real readers/writer on pipes. Not covered: RealDriver::poll with a non-zero timeout (real waiting), ENODEV->End, uinput ioctls, the multi-device thread spawners.")
 
 CHECKS = {
  "C01": ("exploration", "seeded simulation of key actors + faulty delivery channel against the real mapper; invariant after every event", "3.A, 4 C01",
@@ -36,11 +36,11 @@ CHECKS = {
  "C19": ("exploration", "seeded simulation; strict fold of all step and release-all outputs", "3.A, 4 C19",
          "Every emitted event is folded strictly: a press of a down key or a release of an up key is a violation (world A over step and release-all outputs; world B over every batch the real loop writes except timer chords, which C11 owns). No reference model involved in world A.", A_NOTE),
  "C10": ("exploration", "discrete-event simulation of the real event loop under a simulated driver; trace refinement against RefLoop and the drain-to-Busy rule", "3.B, 4 C10",
-         "The real per-device loop runs on a simulated driver with edge-triggered readiness; arrival batching, device order, latency, signal interruptions with back-off, spurious time-outs/readiness and device removal are drawn from a decision tape. The recorded trace must refine RefLoop: every non-empty mapper step written once and in order, every notified device read until Busy/End before the next poll, no call after End.", B_NOTE),
+         "The real per-device loop runs on a simulated driver with edge-triggered readiness; arrival batching, device order, latency, signal interruptions with back-off, spurious time-outs/readiness and device removal are drawn from a decision tape. The recorded trace must refine RefLoop: every non-empty mapper step written once and in order, every notified device read until Busy/End before the next poll, no call after End. A hybrid campaign runs the shipped RealDriver (hook H3) on pipes underneath the simulated schedule and cross-checks its zero-timeout poll (token to device mapping, edge-triggered readiness) at every wake-up.", B_NOTE),
  "C11": ("exploration", "discrete-event simulation with a simulated clock; exact timeout/deadline prediction and chord payload check", "3.B, 4 C11",
          "The clock is simulated, so every poll timeout is predicted exactly (None / deadline-now / 1 ms when overdue, no tolerance); chords are sent iff a time-out occurs while armed and not in tablet mode, with the payload 'repeat keys not already held, listed order, reverse release', and leave the held set unchanged.", B_NOTE),
  "C12": ("exploration", "discrete-event simulation with tablet-switch arrivals interleaved with key arrivals and timer ticks", "3.B, 4 C12",
-         "Tablet on/off events (repeated, during chords, with a timer armed, in the same wake-up as key events in both orders): release batch equals the held keys, no write until Off is read, fresh behaviour afterwards.", B_NOTE),
+         "Tablet on/off events (repeated, during chords, with a timer armed, in the same wake-up as key events in both orders): release batch equals the held keys (as a set), no write until Off is read, and afterwards the loop must behave like RefLoop continued with a brand-new mapper (C12-not-fresh), so state carried across the change by the mapper or the timer is visible.", B_NOTE),
  "C14": ("exploration", "stored-file fault simulation (torn/corrupted layout file) through the real loader, then the real mapper under key histories; exhaustive truncation sweep of shipped texts", "3.D, 4 C14",
          "A real file is written, faulted (truncation at every offset of every shipped text exhaustively; random truncation, bit flips, block duplication/drop/transposition, garbage, empty, bad paths, non-UTF-8 otherwise) and loaded by the real load_layout_from_file; accepted layouts are installed in a real Mapper and driven by seeded histories. Any unwind is a violation.",
          "Trusted: catch_unwind observes every panic. Real code: load_layout_from_file (real file I/O), serde_json, parser, converter, Mapper. The byte-string quantifier is sampled from a grammar plus faults; weakest fit of the claimed properties (first clause is mostly decided by the generated workload)."),
@@ -48,7 +48,7 @@ CHECKS = {
          "The simulator plays the uinput consumer and the evdev node on pipes: bytes of every batch are compared record by record with libc::input_event; the tool's reader must decode them back; on streams interleaving foreign records it must return exactly the press/release records with known codes. The sweep over all known key codes x {press, release} is exhaustive; batches/interleavings are sampled; hybrid world-B runs put the byte layer under whole loop histories.",
          "Trusted: libc::input_event for this target; KeyCode discriminants = kernel key numbers. Real code: DevInputWriter::send, StructSerializer, DevInputReader::next, TabletModeSwitchReader::next. Host ABI only."),
  "C20": ("fault_enumeration", "per-call I/O fault sweep: every driver call of every sampled schedule fails in turn", "3.B, 4 C20",
-         "For each sampled (layout, schedule, tape) the fault-free run is executed once to learn its n driver calls, then re-executed n times with exactly the k-th call (register, poll, read or send) returning an error, for every k. The loop must return that error and write nothing afterwards. Enumeration over fault positions is complete per schedule; schedules are sampled.", B_NOTE),
+         "For each sampled (layout, schedule, tape) the fault-free run is executed once to learn its n driver calls, then re-executed n times with exactly the k-th call (register, poll, read or send) returning an error, for every k. The loop must return that error and write nothing afterwards. Two further sweeps go below the driver seam in hybrid runs: every send with the OS-level write under the shipped RealDriver/DevInputWriter failing (EAGAIN, EPIPE, EBADF) and every keyboard/tablet read failing (EBADF). Enumeration over fault positions is complete per schedule; schedules are sampled.", B_NOTE),
 }
 
 NOT_APPLICABLE = {
